@@ -15,7 +15,8 @@
      RSA1024 key -> ValueError (fix 64ae05b); version None -> 2;
      not ephemeral and no dir -> mkdtemp + addSystemEventTrigger.
    * listen: await config (a non-TorConfig -> ValueError); listenTCP(0, interface=127.0.0.1);
-     create the service with ports ["<public> 127.0.0.1:<bound>"]; on ANY exception from creation
+     if the directory is already among config.HiddenServices (those that have a .dir) use that service and
+     send nothing, else create the service with ports ["<public> 127.0.0.1:<bound>"]; on ANY exception from creation
      stopListening the local port and re-raise; wrap in TorOnionListeningPort.
      (_add_ephemeral_service still has its own version 3 / key test; the constructor now refuses that
      combination first, so it is unreachable through an endpoint and not modelled.)
@@ -100,6 +101,11 @@ Definition config_ready (c : cfg) (q : req) : lst * list lobs :=
   if negb (g_bind_ok c) then
     ({| p_ph := POver false; p_open := false; p_port := false; p_oos := false |},
      [OListen true true false; OResult (LFail FBind)])
+  else if negb (q_eph q) && q_hsdir q && g_same_dir c then
+    (* `already`: the directory is one of config.HiddenServices' .dir: nothing is created or sent, the
+       existing service object is wrapped at once (the lookup loop skips services without a .dir: fix 0104264) *)
+    ({| p_ph := POver true; p_open := true; p_port := true; p_oos := false |},
+     [OListen true true true; OResult (LOk true true true)])
   else
     ({| p_ph := PCreate m0; p_open := true; p_port := false; p_oos := false |},
      [OListen true true true; OCmd (q_eph q) [(g_pub c, g_bound c, true)]]).
